@@ -69,6 +69,120 @@ def namespace_pairs(repo_ref, n_each):
     return out
 
 
+_RFC3986_B = None
+
+
+def rfc3986_resolve(base, ref):
+    """RFC 3986 section 5.2 (strict) on an absolute base and a reference, both already known to be valid: the oracle."""
+    import re
+    global _RFC3986_B
+    if _RFC3986_B is None:
+        _RFC3986_B = re.compile(r"^(([^:/?#]+):)?(//([^/?#]*))?([^?#]*)(\?([^#]*))?(#(.*))?$", re.S)
+
+    def parse(x):
+        m = _RFC3986_B.match(x)
+        return (m.group(2), m.group(4), m.group(5), m.group(7), m.group(9))
+
+    def remove_dots(path):
+        inp, out = path, []
+        while inp:
+            if inp.startswith("../"):
+                inp = inp[3:]
+            elif inp.startswith("./"):
+                inp = inp[2:]
+            elif inp.startswith("/./"):
+                inp = inp[2:]
+            elif inp == "/.":
+                inp = "/"
+            elif inp.startswith("/../"):
+                inp = inp[3:]
+                if out:
+                    out.pop()
+            elif inp == "/..":
+                inp = "/"
+                if out:
+                    out.pop()
+            elif inp in (".", ".."):
+                inp = ""
+            else:
+                i = inp.find("/", 1)
+                if i < 0:
+                    i = len(inp)
+                out.append(inp[:i])
+                inp = inp[i:]
+        return "".join(out)
+
+    bs, ba, bp, bq, _bf = parse(base)
+    rs, ra, rp_, rq, rf = parse(ref)
+    if rs is not None:
+        ts, ta, tp, tq = rs, ra, remove_dots(rp_), rq
+    else:
+        if ra is not None:
+            ta, tp, tq = ra, remove_dots(rp_), rq
+        else:
+            if rp_ == "":
+                tp = bp
+                tq = rq if rq is not None else bq
+            else:
+                if rp_.startswith("/"):
+                    tp = remove_dots(rp_)
+                else:
+                    if ba is not None and bp == "":
+                        merged = "/" + rp_
+                    else:
+                        merged = bp[:bp.rfind("/") + 1] + rp_
+                    tp = remove_dots(merged)
+                tq = rq
+            ta = ba
+        ts = bs
+    out = ts + ":"
+    if ta is not None:
+        out += "//" + ta
+    out += tp
+    if tq is not None:
+        out += "?" + tq
+    if rf is not None:
+        out += "#" + rf
+    return out
+
+
+def resolve_class(base, ref):
+    """role-based key of a deviating (base, reference) pair, used to match entries of known_findings.json"""
+    import re
+    m = re.match(r"^[A-Za-z][A-Za-z0-9+.\-]*:", ref)
+    if m:
+        path = re.split(r"[?#]", ref[m.end():], 1)[0]
+        if re.match(r"^//", path):
+            path = "/" + path[2:].partition("/")[2] if "/" in path[2:] else ""
+        if any(seg in (".", "..") for seg in path.split("/")):
+            return "absolute-reference-with-dot-segments"
+        return "absolute-reference"
+    bm = re.match(r"^[A-Za-z][A-Za-z0-9+.\-]*:(.*)$", base, re.S)
+    if bm and not bm.group(1).startswith("//") and not ref.startswith("//"):
+        return "relative-reference:no-authority-base"
+    return "relative-reference"
+
+
+def resolve_mode(mode, ref, want, got):
+    """failure mode of a listed finding: the entry covers a deviating pair only if the real code fails in exactly that way"""
+    if len(set(got)) != 1:
+        return False
+    g = got[0]
+    if mode == "returns-reference-unchanged":
+        return g == ref
+    if mode == "drops-leading-slash":
+        i = want.find(":/")
+        return i > 0 and want[:i + 1] + want[i + 2:] == g
+    return False
+
+
+RESOLVE_REFS = ["", "#", "#f", "?", "?q", "?q#f", "g", "./g", "g/", "/g", "//h", "//h/p?q", "g?y#s", ";x", "g;x?y#s", ".", "./", "..", "../", "../g", "../..", "../../g",
+                "../../../g", "/./g", "/../g", "g.", ".g", "g..", "..g", "./../g", "./g/.", "g/./h", "g/../h", "g;x=1/./y", "g;x=1/../y", "g?y/./x", "g#s/../x", "s:p",
+                "s:a/../b", "s://h/a/./b", "\u00e9/\u00fc", "a/b/../../../c", "a//b", "/a//../b"]
+RESOLVE_BASES = ["http://a/b/c/d;p?q", "http://a/b/c/d;p?q#frag", "http://a", "http://a#f", "http://a?q", "http://a/", "http://a/b/", "http://a/b/c/?q#f", "s:p/x", "s:/p/x#f", "s:",
+                 "s:x?q#f", "http://[::1]:80/a/b#f", "urn:x:y:z#f", "http://\u00e9.org/\u00fc/?q#f", "file:///a/b/c", "http://a//b//c#f"]
+
+
 def judge(s, row):
     """compare the real validators on `s` with RFC 3987; returns list of problems (empty = fine)"""
     iri_ok, ref_ok, rel_ok, base, ox_abs, ox_ref = row
@@ -125,6 +239,8 @@ def run(ctx):
         # open known findings: replay first, assume the class away only while it still reproduces
         known_classes = {}
         for e in ctx.open_findings():
+            if e.get("kind") == "resolve":
+                continue   # handled with the resolution pairs below
             w = e["witness"]
             c, detail = confirm(w)
             if c:
@@ -167,6 +283,47 @@ def run(ctx):
                                                                               "detail": "Namespace::get returned %s, RFC 3987 says the concatenation is %s" % ("Ok" if g == "1" else "Err", "valid" if want else "invalid")})
                     ctx.violation(wp, "Namespace::new(%r).get(%r) is %s but the concatenation is %s per RFC 3987" % (a, b, "Ok" if g == "1" else "Err", "valid" if want else "invalid"))
         ctx.coverage["namespace_get_pairs_replayed"] = ns_checked
+        # resolution: the four resolving entry points of sophia_iri against RFC 3986 5.2, on (base, reference) pairs drawn from fixed
+        # lists, the corpus and the solver's witnesses (every accepted absolute IRI is a base, every accepted reference a reference)
+        bases = list(RESOLVE_BASES) + [x for x, row in zip(allstr, rows) if row[0] and len(x) < 60][:(25 if ctx.tier == "quick" else 200)]
+        refs = list(RESOLVE_REFS) + [x for x, row in zip(allstr, rows) if row[1] and len(x) < 60][:(25 if ctx.tier == "quick" else 200)]
+        rpairs = [(b, r) for b in bases for r in refs]
+        rc, out = rep.run("dev", ["c09", "resolve"], stdin="\n".join(rprop.esc(b + "\x1f" + r) for b, r in rpairs) + "\n", timeout=600)
+        lines = out.split("\n")[:len(rpairs)]
+        res_checked = res_bad = 0
+        res_known = {e["class"]: e for e in ctx.open_findings() if e.get("kind") == "resolve"}
+        res_known_hits = {}
+        if rc != 0 or len(lines) != len(rpairs):
+            ctx.inconc("resolve replay failed: rc=%s lines=%d/%d %s" % (rc, len(lines), len(rpairs), out[-200:]))
+        else:
+            for (b, r), l in zip(rpairs, lines):
+                if l.strip() == "n/a":
+                    continue
+                res_checked += 1
+                want = rfc3986_resolve(b, r)
+                if l.strip() == "panic":
+                    got = ["<panic>"] * 4
+                else:
+                    got = [bytes.fromhex(h[1:]).decode("utf-8") for h in l.split()]
+                names = ("Iri::resolve", "IriRef::resolve", "BaseIri::resolve", "BaseIri::resolve_into")
+                diffs = ["%s gives %r" % (n, g) for n, g in zip(names, got) if g != want]
+                if not diffs:
+                    continue
+                cls = resolve_class(b, r)
+                # a listed finding only covers its own failure mode: all four entry points return the reference unchanged
+                if cls in res_known and resolve_mode(res_known[cls].get("mode"), r, want, got):
+                    res_known_hits[cls] = res_known_hits.get(cls, 0) + 1
+                    continue
+                log("[C09]   resolve deviation (%s): %r + %r -> %r, RFC %r" % (cls, b, r, got[0], want))
+                if res_bad < 3:
+                    res_bad += 1
+                    wp = ctx.write_witness("resolve-%d" % res_bad, {"property": "C09", "kind": "resolve", "base": b, "reference": r, "rfc3986_5_2": want, "detail": diffs})
+                    ctx.violation(wp, "resolving %r against %r: RFC 3986 5.2 gives %r but %s" % (r, b, want, "; ".join(diffs)))
+            for cls, e in res_known.items():
+                if res_known_hits.get(cls):
+                    ctx.known("%s [%s] (%d of the replayed pairs)" % (e["what"], e["key"], res_known_hits[cls]))
+                    ctx.assumptions.append("known finding %s: pairs of class %s whose result is the unchanged reference are not reported again" % (e["key"], cls))
+        ctx.coverage["resolve_pairs_replayed"] = res_checked
         if wiring_bad:
             ctx.inconc("real validators disagree with the extracted patterns on %d corpus strings: the patterns are not the whole validator" % wiring_bad)
         ctx.coverage["translator_validation"] = {"strings": n, "disagreements": nbad, "validators_vs_patterns_disagreements": wiring_bad}
@@ -210,7 +367,7 @@ def run(ctx):
             ctx.violation(wp, "corpus string %r: %s" % (s, "; ".join(probs)))
         ctx.assumptions += ["regexes extracted from iri/src/_regex.rs at run time", "wiring facts checked textually: " + "; ".join(w[1][:60] for w in WIRING)]
         ctx.coverage["functions_encoded"] = ["sophia_iri::IRI_REGEX_SRC", "sophia_iri::IRELATIVE_REF_REGEX_SRC (as used by Iri::new, IriRef::new, is_absolute_iri_ref, is_relative_iri_ref, is_valid_iri_ref)"]
-        ctx.coverage["outside_the_claim"] = ["equality of resolution results with RFC 3986 5.2 (oxiri, third-party); only no-panic/valid-result of as_base()/resolve() on witnesses and corpus"]
+        ctx.coverage["outside_the_claim"] = ["equality of resolution results with RFC 3986 5.2 for ALL pairs (oxiri, third-party, is not encoded): decided natively on a finite set of (base, reference) pairs drawn from fixed lists, the corpus and the solver witnesses, through the four sophia_iri entry points"]
     finally:
         rep.close()
 
@@ -220,6 +377,21 @@ def replay(ctx, path):
     w = json.load(open(path))
     rep = rp.Replay(ctx.id, profiles=("dev",))
     try:
+        if w.get("kind") == "resolve":
+            rc, out = rep.run("dev", ["c09", "resolve"], stdin=rprop.esc(w["base"] + "\x1f" + w["reference"]) + "\n")
+            want = rfc3986_resolve(w["base"], w["reference"])
+            l = out.strip()
+            got = [bytes.fromhex(h[1:]).decode("utf-8") for h in l.split()] if l not in ("n/a", "panic") else [l]
+            log("resolve(%r, %r) -> %s ; RFC 3986 5.2: %r" % (w["base"], w["reference"], got, want))
+            if l != "n/a" and any(g != want for g in got):
+                known = {e["class"]: e for e in ctx.open_findings() if e.get("kind") == "resolve"}
+                cls = resolve_class(w["base"], w["reference"])
+                if cls in known and resolve_mode(known[cls].get("mode"), w["reference"], want, got):
+                    log("KNOWN-FINDING: property=C09 %s [%s]" % (known[cls]["what"], known[cls]["key"]))
+                    return 0
+                log("VIOLATION property=C09 replay=%s" % path)
+                return 1
+            return 0
         if w.get("kind") == "namespace":
             rc, out = rep.run("dev", ["c09", "ns"], stdin=rprop.esc(w["namespace"] + "\x1f" + w["suffix"]) + "\n")
             want = A.matches(rfc3987.IRI, w["string"]) or A.matches(rfc3987.irelative_ref, w["string"])
